@@ -602,6 +602,9 @@ func (z *BigInt) GobDecode(buf []byte) error {
 	var tmp1 big.Int //gcassert:noescape
 	zi := z.inner(&tmp1)
 	if err := zi.GobDecode(buf); err != nil {
+		// Like (big.Int).GobDecode, leave z with whatever value the failed
+		// decode produced, but keep it a well-formed BigInt.
+		z.updateInner(zi)
 		return err
 	}
 	z.updateInner(zi)
@@ -848,6 +851,7 @@ func (z *BigInt) Scan(s fmt.ScanState, ch rune) error {
 	var tmp1 big.Int //gcassert:noescape
 	zi := z.inner(&tmp1)
 	if err := zi.Scan(s, ch); err != nil {
+		z.updateInner(zi)
 		return err
 	}
 	z.updateInner(zi)
@@ -914,6 +918,10 @@ func (z *BigInt) SetString(s string, base int) (*BigInt, bool) {
 	var tmp1 big.Int //gcassert:noescape
 	zi := z.inner(&tmp1)
 	if _, ok := zi.SetString(s, base); !ok {
+		// The value of z is undefined after a failed parse, as in math/big,
+		// but it must stay a well-formed BigInt: the digits parsed so far
+		// were written into z's words through zi.
+		z.updateInner(zi)
 		return nil, false
 	}
 	z.updateInner(zi)
@@ -1005,6 +1013,7 @@ func (z *BigInt) UnmarshalJSON(text []byte) error {
 	var tmp1 big.Int //gcassert:noescape
 	zi := z.inner(&tmp1)
 	if err := zi.UnmarshalJSON(text); err != nil {
+		z.updateInner(zi)
 		return err
 	}
 	z.updateInner(zi)
@@ -1016,6 +1025,7 @@ func (z *BigInt) UnmarshalText(text []byte) error {
 	var tmp1 big.Int //gcassert:noescape
 	zi := z.inner(&tmp1)
 	if err := zi.UnmarshalText(text); err != nil {
+		z.updateInner(zi)
 		return err
 	}
 	z.updateInner(zi)
